@@ -55,6 +55,8 @@ def sig_of(case, clause):
         feat = a.get("denom", "-") if kind != "block" else "native"
         if feat == "ukex":
             feat = "native"
+    elif name.startswith("genesis_"):
+        feat = "round-trip"
     elif name in ("ubi_gate", "ubi_mints"):
         recs = (op.get("obs") or {}).get("ubi_records_before") or []
         mints = (op.get("obs") or {}).get("ubi_mints_in_order") or []
